@@ -1,6 +1,7 @@
 (* C15 — exported theorems only: each is closed by [exact] and followed by Print Assumptions. *)
 From Coq Require Import List ZArith Bool.
-From Verif Require Import C15.Model C15.Spec C15.Proofs C15.Proofs_inv.
+From Verif Require Import C15.Model C15.Spec C15.Proofs C15.Proofs_maps C15.Proofs_reach
+     C15.Proofs_inv C15.Proofs_spec C15.Proofs_ns C15.Proofs_hist C15.Proofs_examples.
 Import ListNotations.
 Open Scope Z_scope.
 
@@ -10,12 +11,95 @@ Proof. exact (conj WF_init WF_step). Qed.
 Print Assumptions c15_inv.
 
 (* after ANY finite sequence of create/update/delete requests (any payloads, any pods in the
-   environment, any old objects) the recorded quotas form a well-formed tree *)
+   environment, any old objects) the recorded quotas form a well-formed tree: parents exist and
+   are parents, parent links reach the root, min within max, children's mins within the
+   parent's min, dimensions and tree ids agree along edges, the children index is exact *)
 Theorem c15_accepted_histories_wf : forall rs, WF (run rs).
 Proof. exact WF_run. Qed.
 Print Assumptions c15_accepted_histories_wf.
+
+(* the executable decision procedure used on the implementation's observables decides WF ... *)
+Theorem c15_wf_code_spec : forall s, ksorted (infos s) -> (wf_code s = 0 <-> WF s).
+Proof. exact wf_code_spec. Qed.
+Print Assumptions c15_wf_code_spec.
+
+(* ... and holds of every reachable record *)
+Theorem c15_wf_decided : forall rs, wf_code (run rs) = 0.
+Proof. exact (fun rs => wf_code_complete (run rs) (proj1 (sorted_run rs)) (WF_run rs)). Qed.
+Print Assumptions c15_wf_decided.
+
+(* the walk up the parent links that the scheduler performs without a bound
+   (getCurToAllParentGroupQuotaInfoNoLock) ends at the root within |quotas| steps *)
+Theorem c15_parent_walk_terminates : forall rs n i,
+  find n (infos (run rs)) = Some i ->
+  reach_b (infos (run rs)) (length (infos (run rs))) n = true.
+Proof. exact (fun rs n i F => Reach_reach_b _ n (wf_reach _ (WF_run rs) n i F)). Qed.
+Print Assumptions c15_parent_walk_terminates.
 
 (* a rejected request leaves the recorded topology unchanged *)
 Theorem c15_reject_frame : forall s r, accepted s r = false -> step s r = s.
 Proof. exact reject_frame. Qed.
 Print Assumptions c15_reject_frame.
+
+(* an accepted deletion: the quota had no child and no pod, and is gone afterwards *)
+Theorem c15_delete_guard : forall rs pods q,
+  accepted (run rs) (pods, Delete q) = true ->
+  (forall c, ~ child_of (infos (run rs)) (q_name q) c)
+  /\ existsb (fun p => fst p =? q_name q) pods = false
+  /\ find (q_name q) (infos (step (run rs) (pods, Delete q))) = None.
+Proof. exact (fun rs pods q => delete_guard (run rs) pods q (WF_run rs)). Qed.
+Print Assumptions c15_delete_guard.
+
+(* namespaces: in a history where the old objects of accepted updates/deletes are the stored
+   ones (what the API server sends), the namespace map binds exactly what the admitted objects
+   declare ... *)
+Theorem c15_namespace_map_exact : forall rs,
+  let '(s, st, cn) := hist_state init_topo [] true rs in cn = true -> NsOK st s.
+Proof. exact ns_hist. Qed.
+Print Assumptions c15_namespace_map_exact.
+
+(* ... hence no namespace is declared by two admitted quotas *)
+Theorem c15_namespace_unique : forall rs,
+  let '(s, st, cn) := hist_state init_topo [] true rs in
+  cn = true ->
+  forall a b qa qb x, find a st = Some qa -> find b st = Some qb ->
+    In x (ann_ns qa) -> In x (ann_ns qb) -> a = b.
+Proof. exact ns_unique. Qed.
+Print Assumptions c15_namespace_unique.
+
+(* the whole-history decision procedure that bin/check evaluates on the implementation's
+   observables (Extract.prop_case) holds on the model's own observable, for every history *)
+Theorem c15_prop_code_model : forall rs, prop_code rs (trace init_topo rs) = 0.
+Proof. exact prop_code_trace. Qed.
+Print Assumptions c15_prop_code_model.
+
+(* ---------------------------------------------------------------- non-vacuity / regressions *)
+Example c15_ex_tree_accepted : map fst (trace init_topo h_tree) = [true; true; true; true].
+Proof. exact ex_tree_accepted. Qed.
+Example c15_ex_cycle_rejected :
+  accepted (run h_tree) ([], Update A A_under_C) = false
+  /\ step (run h_tree) ([], Update A A_under_C) = run h_tree.
+Proof. exact ex_cycle_rejected. Qed.
+Example c15_ex_cycle2_rejected :
+  accepted (run [([], Add A); ([], Add B)]) ([], Update A A_under_B) = false.
+Proof. exact ex_cycle2_rejected. Qed.
+Example c15_ex_reparent_accepted :
+  accepted (run h_tree) ([], Update C C_under_D) = true
+  /\ children (step (run h_tree) ([], Update C C_under_D)) 6 = [5]
+  /\ children (step (run h_tree) ([], Update C C_under_D)) 4 = [].
+Proof. exact ex_reparent_accepted. Qed.
+Example c15_ex_minsum_rejected : code (run h_tree) ([], Add E) = 4.
+Proof. exact ex_minsum_rejected. Qed.
+Example c15_ex_delete_guard :
+  code (run h_tree) ([], Delete B) = 4
+  /\ code (run h_tree) ([(5, 1000)], Delete C) = 5
+  /\ code (run h_tree) ([], Delete C) = 0.
+Proof. exact ex_delete_guard. Qed.
+Example c15_ex_wf_code_cycle :
+  wf_code (mkTopo [(3, inf 4 true 5); (4, inf 3 true 5)] [(0, []); (3, [4]); (4, [3])] []) = 12.
+Proof. exact ex_wf_code_cycle. Qed.
+Example c15_ex_consistent :
+  snd (hist_state init_topo [] true
+         [([], Add (with_ns A [1000])); ([], Update (with_ns A [1000]) (with_ns A [1001]));
+          ([], Delete (with_ns A [1001]))]) = true.
+Proof. exact ex_consistent. Qed.
